@@ -11,7 +11,7 @@ from .simfs import SimFile, SimFS
 
 class Outcome:
     __slots__ = ("kind", "value", "exc_type", "exc_text", "where", "steps", "items", "recno", "ctx",
-                 "stdout", "rc", "orig_type")
+                 "stdout", "rc", "orig_type", "exc")
 
     def __init__(self):
         self.kind = None      # 'dict' | 'liberr' | 'foreign' | 'budget' | 'stop' (readers) | 'rc' (tools)
@@ -26,6 +26,7 @@ class Outcome:
         self.stdout = None
         self.rc = None
         self.orig_type = None
+        self.exc = None
 
     def brief(self):
         return {"kind": self.kind, "exc": self.exc_type, "where": self.where, "n": len(self.items or []),
@@ -96,6 +97,7 @@ def run_reader(image, reader, blocked, enc=None, cfg=None, limit=None, maxlen=No
         o.recno = ex.record_number
         o.ctx = ex.binary_context_data
         o.orig_type = type(ex.ex).__name__ if getattr(ex, "ex", None) is not None else None
+        o.exc = ex
     except Exception as ex:
         # includes a bare Iso8583DataError escaping IpmReader: the tools catch MciIpmDataError only
         o.kind = "foreign"
